@@ -120,7 +120,7 @@ def act_status(a):
     e = a.exception()
     if e is not None:
         return 'failed:' + exc_tag(e)
-    return 'done'
+    return 'doneFalse' if a.result() is False else 'done'
 
 
 LABEL = {ps.ProcessState.CREATED: 'CREATED', ps.ProcessState.RUNNING: 'RUNNING', ps.ProcessState.WAITING: 'WAITING',
